@@ -158,6 +158,32 @@ Proof.
     + apply (proj1 (proj2 (scan_file_exact b0))) in Hmen. congruence.
 Qed.
 
+(* the executable comparison of the key components used by the correspondence leg `ppkey` decides equality of
+   the argument LIST, the extra hashes, the allow-listed variables and the input digest *)
+Lemma list_eqb_true {A} (eqb : A -> A -> bool) (a b : list A) :
+  (forall x y, eqb x y = true -> x = y) -> list_eqb eqb a b = true -> a = b.
+Proof.
+  intros He. revert b; induction a as [|x a IH]; intros [|y b] Hl; simpl in Hl; try discriminate; [reflexivity|].
+  apply andb_true_iff in Hl as [Hxy Hl]. rewrite (He x y Hxy), (IH b Hl). reflexivity.
+Qed.
+
+Theorem pp_key_eqb_sound (a b : pp_key_parts D) :
+  pp_key_eqb D Deqb a b = true ->
+  pk_plusplus D a = pk_plusplus D b /\ pk_args D a = pk_args D b /\ pk_extra D a = pk_extra D b /\
+  pk_env D a = pk_env D b /\ pk_input D a = pk_input D b.
+Proof.
+  unfold pp_key_eqb. intros Hk.
+  apply andb_true_iff in Hk as [Hk Hin]. apply andb_true_iff in Hk as [Hk Henv].
+  apply andb_true_iff in Hk as [Hk Hex]. apply andb_true_iff in Hk as [Hpp Hargs].
+  split; [apply Bool.eqb_prop; exact Hpp|].
+  split; [apply (list_eqb_true bytes_eqb); [intros x y Hxy; apply bytes_eqb_eq; exact Hxy | exact Hargs]|].
+  split; [apply (list_eqb_true bytes_eqb); [intros x y Hxy; apply bytes_eqb_eq; exact Hxy | exact Hex]|].
+  split; [|apply idigest_eqb_true; exact Hin].
+  apply (list_eqb_true (fun x y => bytes_eqb (fst x) (fst y) && bytes_eqb (snd x) (snd y))); [|exact Henv].
+  intros [x1 x2] [y1 y2] Hxy. simpl in Hxy. apply andb_true_iff in Hxy as [Hx1 Hx2].
+  apply bytes_eqb_eq in Hx1. apply bytes_eqb_eq in Hx2. subst. reflexivity.
+Qed.
+
 (* ---------------- what a recorded include entry is ---------------- *)
 
 Definition recorded_ie (cfg : config) (fs : fsnap) (date : bytes) (ie : ientry) : Prop :=
@@ -564,41 +590,77 @@ Section Mode.
     - destruct (name_in env_pp (fst kv)); simpl; [rewrite Hm|]; exact IH.
   Qed.
 
-  (* a recording made by a real compile of this request: the key is the main key of the preprocessor output
-     in that file system, and the line markers announced every file that was read *)
-  Definition faithful (cfg : config) (req : Req) (env0 : env_t) (op : rec_op) : Prop :=
-    ro_key op = main_key req (filter_env env_main env0)
-                         (pp req (filter_env env_pp env0) (ro_fs op) (ro_date op)) /\
-    (forall p, In p (reads req (filter_env env_pp env0) (ro_fs op) (ro_date op)) -> must_record cfg op p).
+  (* The manifest (preprocessor-cache entry) a request is looked up in is chosen by the pp-level key
+     `preprocessor_cache_entry_hash_key`: a digest of the request's hashed arguments (each with its own length
+     prefix), the allow-listed variables, the input path and the input file digest.  It is abstract here; what the
+     theorem needs is the NAMED hypothesis that it is injective in (request, allow-listed environment, input
+     digest).  That hypothesis is what property C02 proves about the real encoding:
+     Properties/C02.v `C02_pp_encode_injective` (+ collision-freeness of BLAKE3 on the encodings). *)
+  Variable K : Type.
+  Variable pp_key : Req -> env_t -> idigest D -> K.
+  Hypothesis pp_key_injective :
+    forall r e d r' e' d', pp_key r e d = pp_key r' e' d' -> r = r' /\ e = e' /\ d = d'.
+  Variable input_path : path.
 
-  Theorem mode_equivalence cfg (req : Req) (env0 env1 : env_t) (ops : list rec_op) fs1 date1 k :
+  Definition input_digest_in (cfg : config) (fs : fsnap) (date : bytes) : option (idigest D) :=
+    match fs_get fs input_path with
+    | Some nd => match n_kind nd with
+                 | KFile => input_file_digest D H HT cfg (n_bytes nd) date (n_mtime nd)
+                 | _ => None
+                 end
+    | None => None
+    end.
+
+  (* the request (req, env) in file system fs at date `date` is served by the manifest with key mk *)
+  Definition in_manifest (cfg : config) (req : Req) (env : env_t) (fs : fsnap) (date : bytes) (mk : K) : Prop :=
+    exists d, input_digest_in cfg fs date = Some d /\ pp_key req (filter_env env_pp env) d = mk.
+
+  (* a recording made by a real compile of request (req0, env0) into manifest mk: the stored key is the main key of
+     the preprocessor output in that file system, and the line markers announced every file that was read *)
+  Definition faithful (cfg : config) (req0 : Req) (env0 : env_t) (mk : K) (op : rec_op) : Prop :=
+    in_manifest cfg req0 env0 (ro_fs op) (ro_date op) mk /\
+    ro_key op = main_key req0 (filter_env env_main env0)
+                         (pp req0 (filter_env env_pp env0) (ro_fs op) (ro_date op)) /\
+    (forall p, In p (reads req0 (filter_env env_pp env0) (ro_fs op) (ro_date op)) ->
+               p = input_path \/ must_record cfg op p).
+
+  Theorem mode_equivalence cfg (req0 req1 : Req) (env0 env1 : env_t) (mk : K) (ops : list rec_op) fs1 date1 k :
     (* S16 side condition, see C02 *)
     forall (env_main_subset_env_pp : forall n, In n env_main -> In n env_pp),
     (* options documented as unsafe are off *)
     ignore_time_macros cfg = false ->
     (file_stat_matches cfg = true -> use_ctime_for_stat cfg = true ->
      forall op, In op ops -> stat_trust (ro_fs op) fs1) ->
-    (* same manifest: same request and allow-listed variables (the preprocessor-cache key is equal) *)
-    filter_env env_pp env1 = filter_env env_pp env0 ->
-    (forall op, In op ops -> faithful cfg req env0 op) ->
+    (* the manifest was filled by compiles of (req0, env0) and is now consulted for (req1, env1) *)
+    (forall op, In op ops -> faithful cfg req0 env0 mk op) ->
+    in_manifest cfg req1 env1 fs1 date1 mk ->
     (* documented caveat *)
     forall (no_new_shadowing_file :
-              forall op p, In op ops -> In p (probes req (filter_env env_pp env0) (ro_fs op) (ro_date op)) ->
+              forall op p, In op ops -> In p (probes req0 (filter_env env_pp env0) (ro_fs op) (ro_date op)) ->
                            fs_get fs1 p = None),
     lookup_result_digest D Deqb H HT cfg fs1 date1 (run_recs D H HT cfg ops) = Some k ->
-    k = main_key req (filter_env env_main env1) (pp req (filter_env env_pp env1) fs1 date1).
+    k = main_key req1 (filter_env env_main env1) (pp req1 (filter_env env_pp env1) fs1 date1).
   Proof.
-    intros Hsub Hitm Htrust Henv Hfaith Hshadow Hl.
+    intros Hsub Hitm Htrust Hfaith [d1 [Hd1 Hk1]] Hshadow Hl.
     destruct (lookup_sound cfg ops fs1 date1 k Htrust Hl) as [op [Hop [Hk Hunch]]].
-    destruct (Hfaith op Hop) as [Hkey Hreads].
+    destruct (Hfaith op Hop) as [[d0 [Hd0 Hk0]] [Hkey Hreads]].
+    rewrite <- Hk0 in Hk1. apply pp_key_injective in Hk1. destruct Hk1 as [Hreq [Henv Hd]]. subst req1 d1.
     rewrite <- Hk, Hkey.
     rewrite <- (filter_env_subset env0 Hsub), <- (filter_env_subset env1 Hsub), Henv.
     f_equal. symmetry. apply pp_frame. split.
-    - intros p Hp. destruct (Hunch p (Hreads p Hp)) as [nd0 [nd1 [Hf0 [Hf1 [Hb [Hd [Ht Hnt]]]]]]].
-      exists nd0, nd1. repeat split; try assumption; try (apply Hf0); try (apply Hf1).
-      + apply Hd. exact Hitm.
-      + apply Ht. exact Hitm.
-      + apply Hnt. exact Hitm.
+    - intros p Hp. destruct (Hreads p Hp) as [-> | Hmust].
+      + (* the input file: covered by the manifest key *)
+        unfold input_digest_in in Hd0, Hd1.
+        destruct (fs_get (ro_fs op) input_path) as [nd0|] eqn:Hg0; [|discriminate].
+        destruct (n_kind nd0) eqn:Hk0'; try discriminate.
+        destruct (fs_get fs1 input_path) as [nd1|] eqn:Hg1; [|discriminate].
+        destruct (n_kind nd1) eqn:Hk1'; try discriminate.
+        destruct (input_digest_sound cfg _ _ _ _ _ _ _ Hd0 Hd1) as [Hb [Hdt [Hts Hnt]]].
+        exists nd0, nd1. split; [split; assumption|]. split; [split; assumption|]. split; [exact Hb|].
+        split; [apply Hdt; exact Hitm|]. split; [apply Hts; exact Hitm | apply Hnt; exact Hitm].
+      + destruct (Hunch p Hmust) as [nd0 [nd1 [Hf0 [Hf1 [Hb [Hd [Ht Hnt]]]]]]].
+        exists nd0, nd1. split; [exact Hf0|]. split; [exact Hf1|]. split; [exact Hb|].
+        split; [apply Hd; exact Hitm|]. split; [apply Ht; exact Hitm | apply Hnt; exact Hitm].
     - intros p Hp. apply (Hshadow op p Hop Hp).
   Qed.
 End Mode.
